@@ -32,4 +32,18 @@ PROPS = {
         "level_note": "Trusted: Lean kernel; extractor; harness; strings.ToLower agrees with ASCII lower-casing on the four recognised mode words (no non-ASCII letter lower-cases to r,o,t,a,l,n,e).",
         "assumptions": ["pointer aliasing is outside the value model: checked structurally (Gen.squashCopiesBeforeWrite) and by before/after comparison in the harness"],
     },
+    "C05": {
+        "lean": "Props.C05",
+        "facts": ["defaultMaxHandles", "evictDivisor", "evictionSkipsAssigned"],
+        "level_text": "Inductive invariant of the handle table (unique ids, unique paths, free list disjoint from live ids, all ids below nextHandle, size <= effective maximum) proved for every operation and lifted to every reachable state; from it, for all histories and every configured maximum: the table is bounded; the handle Allocate returns resolves to its path in the resulting table (dedup, fresh, recycled, with or without eviction); re-issue for a live path returns the same value. The multi-handle case (READDIRPLUS batches on a full table) is a proved counterexample and a known finding; the partial theorem covers batches that fit. The real FileHandleMap is differentially checked on long random histories for max in {1,2,3,10,11,100,default}.",
+        "level_note": "Trusted: Lean kernel; container/heap (the free list is modelled as take-the-minimum); extractor; harness. Partial: 'live when issued' for READDIRPLUS batches is only proved when no eviction occurs during the batch (known finding otherwise).",
+        "assumptions": ["paths handed to Allocate are non-empty (true of every NFSNode the server creates)"],
+    },
+    "C06": {
+        "lean": "Props.C06",
+        "facts": ["defaultMaxHandles", "evictDivisor", "handlersStaleOnMiss"],
+        "level_text": "PARTIAL. The full statement (a value once issued never resolves to another path) is false of the code and of the model: counterexample theorem + known finding C06/free-list-id-reuse (reuse is pinned by the repository's own tests). Proved: dead / released / evicted / post-ReleaseAll handles resolve to nothing (and every handler maps that to NFS3ERR_STALE: regenerated fact + handler-level run over all procedures, incl. after Unexport and re-mount); ids taken from nextHandle were never issued before; nextHandle never decreases; after ReleaseAll the next id is new. Differential check of the real table as C05.",
+        "level_note": "Trusted: Lean kernel; extractor; harness. The property is only partially provable on the current design (free-list reuse).",
+        "assumptions": [],
+    },
 }
